@@ -254,9 +254,18 @@ def chimera(rng, nchains=None, allow_blank=True, hetero=True, max_atoms=900):
         desc["chains"].append(cid)
         for x in het:
             hc = rng.choice((cid, cid, pool[(k + 1) % nchains], pool[nchains]))
+            num = x.atoms[0].resnum
+            # a hetero residue keeps its number unless that identity is taken already in its new chain
+            # (the same ligand cut out twice, or a protein residue of that number): then it gets a free one
+            taken = {(r.chain, r.resnum, r.icode) for r in out if r.raw is None}
+            if (hc, num, x.atoms[0].icode) in taken:
+                num = max([r.resnum for r in out if r.raw is None and r.chain == hc] + [899]) + 1
+                if num > 9999:
+                    continue
             for a in x.atoms:
                 a2 = a.copy()
                 a2.chain = hc
+                a2.resnum = num
                 out.append(a2)
             desc["hetero"].append((x.key[4].strip(), hc))
     return out, desc
